@@ -27,7 +27,8 @@ from . import c01, c20, c11
 
 ID = "C15"
 LEVEL = "exploration"
-RULE = ("main: the lock-ownership monitor (every SyncState.updated call must come from a thread that owns state.lock) "
+RULE = ("main: the lock-ownership monitor (every SyncState.updated call must come from a thread that owns state.lock; "
+        "the hold under which an entry synchronisation started must not be released before it ends) "
         "over Hypothesis-generated CloudSync histories (C01 domain, with conflict gadgets) and SmartCloudSync histories "
         "(C20 domain: requests, un-requests, listings issued from the application thread, plus walk and change_count "
         "calls).  threads: generated one-sided / disjoint two-sided envelope histories executed against cs.start() with "
@@ -71,11 +72,76 @@ def _updated(self, ent, side, key, val):
 st_mod.SyncState.updated = _updated
 
 
-def monitor_on(state):
+class MonitoredLock:
+    """Stand-in for state.lock (an RLock) that notices when the lock is let go in the middle of an atomic step
+    (one event application / one entry synchronisation): the hold taken at the start of the step must last until
+    the step ends, otherwise another thread can change the entry half-way through."""
+
+    def __init__(self, inner):
+        self._inner = inner
+        self._tl = threading.local()
+
+    def _depth(self):
+        return getattr(self._tl, "depth", 0)
+
+    def acquire(self, *a, **kw):
+        r = self._inner.acquire(*a, **kw)
+        if r:
+            self._tl.depth = self._depth() + 1
+        return r
+
+    def release(self):
+        self._inner.release()
+        self._tl.depth = self._depth() - 1
+        if self._tl.depth == 0 and getattr(self._tl, "atomic", 0) > 0 and _MON["on"]:
+            f = sys._getframe(1)
+            chain = []
+            while f is not None and len(chain) < 8:
+                fn = f.f_code.co_filename
+                if "/cloudsync/" in fn and "/vf/" not in fn:
+                    chain.append("%s:%s" % (fn.rsplit("/", 1)[-1], f.f_code.co_name))
+                f = f.f_back
+            _HITS.append((threading.current_thread().name, "atomic:" + (chain[0] if chain else "?"), "lock",
+                          "state lock released inside an atomic step: " + " <- ".join(chain[:6])))
+
+    __enter__ = acquire
+
+    def __exit__(self, *a):
+        self.release()
+
+    def _is_owned(self):
+        return self._inner._is_owned()
+
+    def enter_atomic(self):
+        self._tl.atomic = getattr(self._tl, "atomic", 0) + 1
+
+    def leave_atomic(self):
+        self._tl.atomic = getattr(self._tl, "atomic", 0) - 1
+
+
+def _wrap_atomic(obj, name, lock):
+    orig = getattr(obj, name)
+
+    def wrapper(*a, **kw):
+        # the step proper starts once the caller holds the lock (do() takes it before _sync_one_entry;
+        # _process_event takes it itself): count only releases below the depth at which the step was entered
+        lock.enter_atomic()
+        try:
+            return orig(*a, **kw)
+        finally:
+            lock.leave_atomic()
+    setattr(obj, name, wrapper)
+
+
+def monitor_on(state, cs=None):
     del _HITS[:]
     _WRITES.clear()
     _MON["state"] = state
     _MON["on"] = True
+    if cs is not None and not isinstance(state.lock, MonitoredLock):
+        lock = MonitoredLock(state.lock)
+        state.lock = lock
+        _wrap_atomic(cs.smgr, "_sync_one_entry", lock)
 
 
 def monitor_off():
@@ -150,7 +216,7 @@ class PlainRun(_MonMixin, HistoryRun):
         self.app_writes = 0
         self.step_writes = 0
         if self.case is not None:
-            monitor_on(self.case.cs.state)
+            monitor_on(self.case.cs.state, self.case.cs)
 
     def special(self, act):
         if act[0] != "app":
@@ -187,7 +253,7 @@ class SmartRun(_MonMixin, c20.Run):
         self.app_writes = 0
         self.step_writes = 0
         if self.case is not None:
-            monitor_on(self.case.cs.state)
+            monitor_on(self.case.cs.state, self.case.cs)
 
     def special(self, act):
         w0 = sum(_WRITES.values())
@@ -270,7 +336,7 @@ def run_threads(trace):
     started = False
     try:
         sys.setswitchinterval(trace["cfg"].get("switch", 1e-4))
-        monitor_on(case.cs.state)
+        monitor_on(case.cs.state, case.cs)
         case.in_engine = True           # every provider call the engine threads make is an engine call
         case.cs.start()
         started = True
